@@ -133,6 +133,46 @@ theorem firToPhase_lin_symmetric {α : Type} (work : Nat → α) (i : SelIn) (ho
     rw [e1, e2]
     exact hsym (k - i.len / 2) (by omega)
 
+/-! ## `lsx_fir_to_phase` at a phase `n/d` (proofs kept here, under this file's own simp set) -/
+
+theorem at_mirror_length {α : Type} (cep : Cep α) (d n : Nat) (h : n ≤ 100 * d) :
+    (firToPhaseAt cep d (100 * d - n)).taps.length = (firToPhaseAt cep d n).taps.length := by
+  unfold firToPhaseAt
+  rw [fold_mirror d n h, cls_mirror d n h]
+  simp
+
+theorem at_linear_centred {α : Type} (cep : Cep α) (d : Nat) (hd : 0 < d) (hl : 1 ≤ (cep.sel (50 * d)).len) :
+    (firToPhaseAt cep d (50 * d)).taps.length = (cep.sel (50 * d)).len ∧
+    (firToPhaseAt cep d (50 * d)).postLen = (((cep.sel (50 * d)).len - 1) / 2 : Nat) := by
+  have hc : cls d (50 * d) = .lin := (cls_lin_iff d (50 * d) hd (by omega)).mpr rfl
+  have hf : fold d (50 * d) = 50 * d := by unfold fold; simp
+  have hg : gt50 d (50 * d) = false := by unfold gt50; simp
+  unfold firToPhaseAt
+  rw [hc, hf, hg]
+  refine ⟨by simp [selWindow], ?_⟩
+  exact postLen_lin _ hl
+
+theorem at_extreme_phase_window {α : Type} (cep : Cep α) (d : Nat) (hd : 0 < d) :
+    (firToPhaseAt cep d 0).taps.length = (cep.sel 0).len ∧
+    (firToPhaseAt cep d (100 * d)).taps.length = (cep.sel 0).len ∧
+    (firToPhaseAt cep d 0).postLen = ((cep.sel 0).len : Int) - 1 - (cep.sel 0).peak ∧
+    (firToPhaseAt cep d (100 * d)).postLen = (cep.sel 0).peak := by
+  have f0 : fold d 0 = 0 := by unfold fold; simp
+  have f1 : fold d (100 * d) = 0 := by unfold fold; split <;> omega
+  have c0 : cls d 0 = .min := by unfold cls; simp [f0]
+  have c1 : cls d (100 * d) = .min := by unfold cls; simp [f1]
+  have g0 : gt50 d 0 = false := by unfold gt50; simp
+  have g1 : gt50 d (100 * d) = true := by unfold gt50; simp; omega
+  unfold firToPhaseAt
+  rw [f0, f1, c0, c1, g0, g1]
+  refine ⟨by simp [selWindow], by simp [selWindow], ?_, ?_⟩
+  · simp [firToPhase, postLen, selWindow]; omega
+  · simp [firToPhase, postLen, selWindow]
+
+theorem at_transformed_length_mod4 {α : Type} (cep : Cep α) (d n : Nat) (h : (cep.sel (fold d n)).len % 4 = 1) :
+    (firToPhaseAt cep d n).taps.length % 4 = 1 := by
+  unfold firToPhaseAt; simp; exact selWindow_len_mod4 _ _ h
+
 /-! ## `lsx_make_lpf` -/
 
 /-- state of the array after iterations `0 … k-1`: exactly the taps `j < k` and `j > m - k` are written,
